@@ -235,7 +235,11 @@ class ResourceMap:
         # discriminated between handles and maps.
         for subkey in keys[:-1]:
             target_map.handles.pop(subkey, None)    # Overwrite duplicates
-            target_map = target_map.maps.setdefault(subkey, ResourceMap())
+            # Missing intermediate maps are added like any other value,
+            # so that their parent and key are set as well
+            if subkey not in target_map.maps:
+                target_map[subkey] = ResourceMap()
+            target_map = target_map.maps[subkey]
 
         # For better performance, only one type check is done at this
         # point.
